@@ -20,7 +20,24 @@ func multiFault(c *fw.Ctx, n int, emit emitFn) {
 		if i%3 == 0 {
 			class = 13
 		}
+		if i%17 == 1 {
+			class = 14
+		}
 		switch class {
+		case 14: // an accepted document in which several response codes cannot be exported to OpenAPI, for different reasons
+			sb.WriteString("GET /a\n")
+			codes := r.Perm(6)
+			for q := 0; q < k && q < 6; q++ {
+				code := 200 + codes[q]
+				switch r.Intn(3) {
+				case 0:
+					sb.WriteString(fmt.Sprintf("  %d empty\n  %d any\n", code, code))
+				case 1:
+					sb.WriteString(fmt.Sprintf("  %d\n    {} // {additionalProperties: \"decimal\"}\n", code))
+				default:
+					sb.WriteString(fmt.Sprintf("  %d empty\n  %d\n    {\"a\": %d}\n", code, code, q))
+				}
+			}
 		case 13: // a random reference graph of user types (cycles likely) where several types carry a fault of their own
 			nt := 3 + r.Intn(4)
 			faults := map[int]int{}
